@@ -311,6 +311,10 @@ def multiprocessing_run(
             result = study_function(this_run_dir, *args, **kwargs)
 
         if not failed_run:
+            # Save key data to disk. This must happen before the success marker is written: a restarted study skips every
+            #    case that has a marker and then loads its results file, so the marker must never exist without the results.
+            np.savez(os.path.join(this_run_dir, f'mp_results.npz'), **result)
+
             # Save something to disk to mark that this was completed successfully
             success_text = f'  Run: {this_run_num} completed successfully. ' \
                            f'Taking {time.time() - run_time_init:0.2f} seconds.\n'
@@ -319,9 +323,6 @@ def multiprocessing_run(
 
             with open(mp_log_path, 'a') as mp_file:
                 mp_file.write(success_text)
-
-            # Save key data to disk
-            np.savez(os.path.join(this_run_dir, f'mp_results.npz'), **result)
 
         return MultiprocessingOutput(case_number=this_run_num, input_index=run_indicies, result=result)
 
